@@ -1062,9 +1062,9 @@ func autoTableLayout(context *layoutContext, box_ Box, containingBlock bo.Point)
 		excessWidth = distributeExcessWidth(context, tmp.grid, excessWidth, table.ColumnWidths, tmp.constrainedness,
 			tmp.columnIntrinsicPercentages, tmp.columnMaxContentWidths, [2]int{0, len(tmp.grid)})
 		if excessWidth != 0 {
-			if tmp.tableMinContentWidth < table.Width.V()-excessWidth {
+			if table.Style.GetWidth().S == "auto" && tmp.tableMinContentWidth < table.Width.V()-excessWidth {
 				// Reduce the width of the size from the excess width that has
-				// not been distributed.
+				// not been distributed, unless a width is specified.
 				table.Width = table.Width.V() - excessWidth
 			} else {
 				// Break rules
